@@ -10,12 +10,20 @@ namespace Cello.RB
 open Std
 variable {α β : Type} {cmp : α → α → Ordering}
 
-/-- a valid Tree: black root, no red node with a red child, equal black heights, strictly descending keys, and
-    `nitems` = number of nodes -/
-structure Valid (cmp : α → α → Ordering) (m : Tree α β) : Prop where
+/-- the key has the size of the key type and the value the size of the value type (`sz` = `(ksize, vsize)`, bytes) -/
+def Fits [Packed α] [Packed β] (sz : Nat × Nat) (e : α × β) : Prop :=
+  8 * (Packed.words e.1).length = sz.1 ∧ 8 * (Packed.words e.2).length = sz.2
+
+/-- a valid Tree: black root, no red node with a red child, equal black heights, strictly descending keys,
+    `nitems` = number of nodes, and every stored key / value has the size of the Tree's key / value type -/
+structure Valid [Packed α] [Packed β] (cmp : α → α → Ordering) (m : Tree α β) : Prop where
   shape : ValidT m.root
   ordered : Desc cmp (toList m.root)
   count : size m.root = m.nitems
+  sized : ∀ e ∈ toList m.root, Fits m.sizes e
+
+section
+variable [Packed α] [Packed β]
 
 /-- the abstraction function: a tree stands for its in-order sequence -/
 @[reducible] def Tree.abs (m : Tree α β) : List (α × β) := toList m.root
@@ -25,23 +33,54 @@ def lookupOutcome : Option β → Outcome β
   | some v => .ok v
   | none => .raised .KeyError
 
-theorem valid_empty : Valid cmp (Tree.empty : Tree α β) :=
-  ⟨⟨rfl, trivial, trivial⟩, Desc.nil, rfl⟩
+theorem valid_mk0 (ks vs : Nat) : Valid cmp (Tree.mk0 ks vs : Tree α β) :=
+  ⟨⟨rfl, trivial, trivial⟩, Desc.nil, rfl, fun _ h => by cases h⟩
+
+theorem valid_empty : Valid cmp (Tree.empty : Tree α β) := valid_mk0 0 0
+
+/-- the entries of a valid tree fit the layout its `Tree_Rem` uses -/
+theorem Valid.fitsLay {m : Tree α β} (h : Valid cmp m) : ∀ e ∈ toList m.root, FitsLay m.lay e := by
+  intro e he
+  obtain ⟨h1, h2⟩ := h.sized e he
+  simp only [Tree.sizes] at h1 h2
+  constructor
+  · show _ = m.ksize / 8; omega
+  · show _ = m.vsize / 8; omega
+
+omit [Packed α] [Packed β] in
+theorem Spec.mem_rem (k : α) (l : List (α × β)) (e : α × β) (he : e ∈ Spec.rem cmp k l) : e ∈ l := by
+  induction l with
+  | nil => simp [Spec.rem] at he
+  | cons a l ih =>
+    obtain ⟨ak, av⟩ := a
+    simp only [Spec.rem] at he
+    split at he
+    · exact List.mem_cons_of_mem _ he
+    · rcases List.mem_cons.mp he with h | h
+      · rw [h]; exact List.mem_cons_self
+      · exact List.mem_cons_of_mem _ (ih h)
 
 theorem Valid.len_eq {m : Tree α β} (h : Valid cmp m) : m.len = m.abs.length := by
   rw [Tree.len, ← h.count, size_eq_length]
 
 /-- `Tree_Set` -/
-theorem set_valid [TransCmp cmp] (m : Tree α β) (k : α) (v : β) (h : Valid cmp m) :
-    ∃ m', m.set cmp k v = some m' ∧ Valid cmp m' ∧ m'.abs = Spec.set cmp k v m.abs := by
+theorem set_valid [TransCmp cmp] (m : Tree α β) (k : α) (v : β) (h : Valid cmp m) (hkv : Fits m.sizes (k, v)) :
+    ∃ m', m.set cmp k v = some m' ∧ Valid cmp m' ∧ m'.abs = Spec.set cmp k v m.abs ∧ m'.sizes = m.sizes := by
   obtain ⟨t', fresh, e, hv⟩ := insAt_valid cmp m.root [] k v (ZipOK.root _ h.shape)
   obtain ⟨h1, h2⟩ := toList_insAt m.root [] k v t' fresh h.ordered e
   simp only [ctxL_nil, ctxR_nil, List.nil_append, List.append_nil] at h1
-  refine ⟨⟨t', if fresh then m.nitems + 1 else m.nitems⟩, by simp [Tree.set, e], ⟨hv, ?_, ?_⟩, h1⟩
+  refine ⟨{ m with root := t', nitems := if fresh then m.nitems + 1 else m.nitems }, by simp [Tree.set, e],
+    ⟨hv, ?_, ?_, ?_⟩, h1, rfl⟩
   · simp only; rw [h1]; exact Spec.desc_set k v _ h.ordered
   · simp only
     rw [size_eq_length, h1, Spec.length_set k v _ h.ordered, h2, ← h.count, size_eq_length]
     cases (Spec.get cmp k (toList m.root)).isNone <;> simp
+  · intro e he
+    simp only at he
+    rw [h1] at he
+    rcases Spec.mem_set he with rfl | he
+    · exact hkv
+    · exact h.sized e he
 
 /-- `Tree_Get` / `Tree_Mem` -/
 theorem get_eq [TransCmp cmp] (m : Tree α β) (k : α) (h : Valid cmp m) :
@@ -54,42 +93,51 @@ theorem mem_eq [TransCmp cmp] (m : Tree α β) (k : α) (h : Valid cmp m) :
   simp only [Tree.mem, find_eq_get m.root k h.ordered, Tree.abs]
 
 /-- `Tree_Rem`: KeyError exactly for absent keys, with the tree unchanged -/
-theorem rem_valid [TransCmp cmp] (m : Tree α β) (k : α) (h : Valid cmp m) :
-    ∃ m' o, m.rem cmp k = some (m', o) ∧ Valid cmp m' ∧
+theorem rem_valid [LawfulPacked α] [LawfulPacked β] [TransCmp cmp] (m : Tree α β) (k : α) (h : Valid cmp m) :
+    ∃ m' o, m.rem cmp k = some (m', o) ∧ Valid cmp m' ∧ m'.sizes = m.sizes ∧
       ((Spec.get cmp k m.abs = none ∧ m' = m ∧ o = .raised .KeyError) ∨
        ((Spec.get cmp k m.abs).isSome ∧ o = .ok () ∧ m'.abs = Spec.rem cmp k m.abs)) := by
   obtain ⟨r, e, hv⟩ := remAt_valid cmp m.root [] k (ZipOK.root _ h.shape)
   obtain ⟨h1, h2⟩ := toList_remAt (cmp := cmp) m.root [] k h.ordered
+  -- the block that `Tree_Rem` moves is the whole entry, because every entry has the sizes of the tree's types
+  rw [← remAt_eq cmp m.lay m.root [] k h.fitsLay] at e
+  rw [← remAt_eq cmp m.lay m.root [] k h.fitsLay] at h1 h2
   cases r with
   | none =>
-    exact ⟨m, _, by simp [Tree.rem, e], h, Or.inl ⟨h1 e, rfl, rfl⟩⟩
+    exact ⟨m, _, by simp [Tree.rem, e], h, rfl, Or.inl ⟨h1 e, rfl, rfl⟩⟩
   | some t' =>
     obtain ⟨g1, g2⟩ := h2 t' e
     simp only [ctxL_nil, ctxR_nil, List.nil_append, List.append_nil] at g2
-    refine ⟨⟨t', m.nitems - 1⟩, _, by simp [Tree.rem, e], ⟨hv t' rfl, ?_, ?_⟩, Or.inr ⟨g1, rfl, g2⟩⟩
+    refine ⟨{ m with root := t', nitems := m.nitems - 1 }, _, by simp [Tree.rem, e], ⟨hv t' rfl, ?_, ?_, ?_⟩, rfl,
+      Or.inr ⟨g1, rfl, g2⟩⟩
     · simp only; rw [g2]; exact Spec.desc_rem k _ h.ordered
     · simp only
       have := Spec.length_rem k _ g1
       rw [size_eq_length, g2, ← h.count, size_eq_length]; omega
+    · intro e he
+      simp only at he
+      rw [g2] at he
+      exact h.sized e (Spec.mem_rem k _ e he)
 
-theorem clear_valid (m : Tree α β) : Valid cmp m.clear ∧ m.clear.abs = [] := ⟨valid_empty, rfl⟩
+theorem clear_valid (m : Tree α β) : Valid cmp m.clear ∧ m.clear.abs = [] ∧ m.clear.sizes = m.sizes :=
+  ⟨⟨⟨rfl, trivial, trivial⟩, Desc.nil, rfl, fun _ h => by cases h⟩, rfl, rfl⟩
 
 /-- `Tree_New` with initial bindings -/
-theorem new_valid [TransCmp cmp] (init : List (α × β)) :
-    ∃ m, Tree.new cmp init = some m ∧ Valid cmp m ∧
-      m.abs = init.foldl (fun l kv => Spec.set cmp kv.1 kv.2 l) [] := by
-  have key : ∀ (init : List (α × β)) (m0 : Tree α β), Valid cmp m0 →
+theorem new_valid [TransCmp cmp] (ks vs : Nat) (init : List (α × β)) (hfit : ∀ e ∈ init, Fits (ks, vs) e) :
+    ∃ m, Tree.new cmp ks vs init = some m ∧ Valid cmp m ∧
+      m.abs = init.foldl (fun l kv => Spec.set cmp kv.1 kv.2 l) [] ∧ m.sizes = (ks, vs) := by
+  have key : ∀ (init : List (α × β)) (m0 : Tree α β), Valid cmp m0 → (∀ e ∈ init, Fits m0.sizes e) →
       ∃ m, init.foldlM (fun m kv => m.set cmp kv.1 kv.2) m0 = some m ∧ Valid cmp m ∧
-        m.abs = init.foldl (fun l kv => Spec.set cmp kv.1 kv.2 l) m0.abs := by
+        m.abs = init.foldl (fun l kv => Spec.set cmp kv.1 kv.2 l) m0.abs ∧ m.sizes = m0.sizes := by
     intro init
     induction init with
-    | nil => intro m0 h0; exact ⟨m0, rfl, h0, rfl⟩
+    | nil => intro m0 h0 _; exact ⟨m0, rfl, h0, rfl, rfl⟩
     | cons kv init ih =>
-      intro m0 h0
-      obtain ⟨m1, e1, v1, a1⟩ := set_valid m0 kv.1 kv.2 h0
-      obtain ⟨m, e, v, a⟩ := ih m1 v1
-      exact ⟨m, by simp [List.foldlM, e1, e], v, by rw [a, a1]; rfl⟩
-  exact key init Tree.empty valid_empty
+      intro m0 h0 hf
+      obtain ⟨m1, e1, v1, a1, s1⟩ := set_valid m0 kv.1 kv.2 h0 (hf kv (by simp))
+      obtain ⟨m, e, v, a, s⟩ := ih m1 v1 (fun e he => by rw [s1]; exact hf e (by simp [he]))
+      exact ⟨m, by simp [List.foldlM, e1, e], v, by rw [a, a1]; rfl, by rw [s, s1]⟩
+  exact key init (Tree.mk0 ks vs) (valid_mk0 ks vs) hfit
 
 /-- forward / backward iteration -/
 theorem iterFwd_valid (m : Tree α β) (h : Valid cmp m) : m.iterFwd = some (m.abs, true) :=
@@ -100,30 +148,34 @@ theorem iterBwd_valid (m : Tree α β) (h : Valid cmp m) : m.iterBwd = some (m.a
 
 /-- the loop of `Tree_Assign`: setting the bindings of a strictly descending list, in order, appends them -/
 theorem assignLoop_valid [TransCmp cmp] (src : Tree α β) (hs : Valid cmp src) (ks : List (α × β)) (m : Tree α β)
-    (hm : Valid cmp m) (hpre : m.abs ++ ks = src.abs) :
-    ∃ m', assignLoop cmp src ks m = some (m', .ok ()) ∧ Valid cmp m' ∧ m'.abs = src.abs := by
+    (hm : Valid cmp m) (hpre : m.abs ++ ks = src.abs) (hsz : m.sizes = src.sizes) :
+    ∃ m', assignLoop cmp src ks m = some (m', .ok ()) ∧ Valid cmp m' ∧ m'.abs = src.abs ∧ m'.sizes = src.sizes := by
   induction ks generalizing m with
-  | nil => exact ⟨m, rfl, hm, by simpa using hpre⟩
+  | nil => exact ⟨m, rfl, hm, by simpa using hpre, hsz⟩
   | cons kv ks ih =>
     obtain ⟨k, v⟩ := kv
     have hd : Desc cmp (m.abs ++ (k, v) :: ks) := by rw [hpre]; exact hs.ordered
     have hmem : (k, v) ∈ src.abs := by rw [← hpre]; simp
     have hget : src.get cmp k = .ok v := by
       rw [get_eq src k hs, Spec.get_of_mem k v _ hs.ordered hmem]; rfl
-    obtain ⟨m1, e1, v1, a1⟩ := set_valid m k v hm
+    obtain ⟨m1, e1, v1, a1, s1⟩ := set_valid m k v hm (by rw [hsz]; exact hs.sized _ hmem)
     have hgt : ∀ a ∈ m.abs, cmp a.1 k = .gt := (desc_mid hd).2.2.1
     rw [Spec.set_all_gt k v _ hgt] at a1
-    obtain ⟨m', e, hv, ha⟩ := ih m1 v1 (by rw [a1, ← hpre]; simp)
-    exact ⟨m', by simp [assignLoop, hget, e1, e], hv, ha⟩
+    obtain ⟨m', e, hv, ha, hz⟩ := ih m1 v1 (by rw [a1, ← hpre]; simp) (by rw [s1, hsz])
+    exact ⟨m', by simp [assignLoop, hget, e1, e], hv, ha, hz⟩
 
 /-- `Tree_Assign` from another tree, `copy` -/
 theorem assign_valid [TransCmp cmp] (dst src : Tree α β) (hs : Valid cmp src) :
-    ∃ m', Tree.assign cmp dst src = some (m', .ok ()) ∧ Valid cmp m' ∧ m'.abs = src.abs := by
-  obtain ⟨m', e, hv, ha⟩ := assignLoop_valid src hs src.abs dst.clear valid_empty (by simp [Tree.abs, Tree.clear])
-  exact ⟨m', by simp [Tree.assign, iterFwd_valid src hs, e], hv, ha⟩
+    ∃ m', Tree.assign cmp dst src = some (m', .ok ()) ∧ Valid cmp m' ∧ m'.abs = src.abs ∧ m'.sizes = src.sizes := by
+  obtain ⟨m', e, hv, ha, hz⟩ := assignLoop_valid src hs src.abs
+    { dst.clear with ksize := src.ksize, vsize := src.vsize }
+    ⟨⟨rfl, trivial, trivial⟩, Desc.nil, rfl, fun _ h => by cases h⟩ (by simp [Tree.abs, Tree.clear]) rfl
+  exact ⟨m', by simp [Tree.assign, iterFwd_valid src hs, e], hv, ha, hz⟩
 
 theorem copy_valid [TransCmp cmp] (src : Tree α β) (hs : Valid cmp src) :
-    ∃ m', Tree.copy cmp src = some (m', .ok ()) ∧ Valid cmp m' ∧ m'.abs = src.abs :=
+    ∃ m', Tree.copy cmp src = some (m', .ok ()) ∧ Valid cmp m' ∧ m'.abs = src.abs ∧ m'.sizes = src.sizes :=
   assign_valid Tree.empty src hs
+
+end
 
 end Cello.RB
